@@ -74,6 +74,20 @@ Theorem C12_other_type_not_decoded : forall e r d d',
 Proof. exact other_type_not_decoded. Qed.
 Print Assumptions C12_other_type_not_decoded.
 
+(* rendering is total: producing the text of ANY status code — the top-level one or one nested in a
+   FieldError / ParameterError — never indexes a text table out of range (in Go: never panics),
+   and the text piece chosen identifies the code. This is a statement about the model of
+   StatusCode.defaultText only; what fmt / string concatenation do with the pieces is outside the
+   model and is covered by the correspondence run alone (every observer of the returned error is
+   called under recover for all 65536 codes). *)
+Theorem C12_rendering_total : forall c, ref_in_table (default_text_ref c) = true.
+Proof. exact default_text_total. Qed.
+Print Assumptions C12_rendering_total.
+
+Theorem C12_text_identifies_code : forall c c', default_text_ref c = default_text_ref c' -> c = c'.
+Proof. exact default_text_ref_inj. Qed.
+Print Assumptions C12_text_identifies_code.
+
 (* non-vacuity: a concrete non-trivial status with a depth-3 ParameterError chain *)
 Definition ex_status : status :=
   mkStatus 201 [112; 195; 169] (Some (FieldErr 3 300))
@@ -109,4 +123,10 @@ Proof. vm_compute. reflexivity. Qed.
 Example C12_example_flat :
   flatten_ope (st_param ex_status) =
   [(177, 200, None); (183, 201, None); (330, 100, Some (FieldErr 1 301))].
+Proof. vm_compute. reflexivity. Qed.
+
+Example C12_example_text_refs :
+  map default_text_ref [0; 100; 112; 113; 209; 210; 301; 302; 400; 401; 402; 65535] =
+  [TSuccess; TMsg 0; TMsg 12; TUnknown 113; TParam 9; TUnknown 210; TField 1; TUnknown 302;
+   TUnknown 400; TDevice 0; TUnknown 402; TUnknown 65535].
 Proof. vm_compute. reflexivity. Qed.
